@@ -41,7 +41,12 @@ func newPool(gr *corpus.Grammar, r *prng.R, hasLexer bool, veryDeep bool) *input
 			if !veryDeep && d > 200 {
 				continue
 			}
-			if s := gr.DeriveDeep(r.Fork("vd"), d); s != nil {
+			s := gr.DeriveDeep(r.Fork("vd"), d)
+			for s != nil && len(s.Tokens) > 12000 && d > 100 {
+				d /= 2 // cycles with fat bodies: keep the input within a few thousand tokens
+				s = gr.DeriveDeep(r.Fork("vd"), d)
+			}
+			if s != nil {
 				p.deep = append(p.deep, s)
 			}
 		}
